@@ -178,6 +178,13 @@ func RoundTrip(file *Tree) (*Tree, error) {
 				st.X = &ast.ParenExpr{X: st.X}
 			}
 		}
+		// Likewise "chan (<-chan T)": printed without the parentheses it
+		// reads "chan<- chan T", a send-only channel of channels.
+		if ct, ok := n.(*ast.ChanType); ok && ct.Dir == ast.SEND|ast.RECV {
+			if in, ok := ct.Value.(*ast.ChanType); ok && in.Dir == ast.RECV {
+				ct.Value = &ast.ParenExpr{X: ct.Value}
+			}
+		}
 		return true
 	})
 	var buf bytes.Buffer
